@@ -590,6 +590,20 @@ writer.  A run carries a fault schedule `Faults` — `os.Create` or the placehol
 
 section faults
 
+/-- **What io.go does with the errors of the cache writer** (generated, literally): the tee hands
+`p` to the cache FIRST and returns its error without writing `p` to the output
+(`stepF`: a failed `Write` of the tee fails the command's write); after a failed `cache.Open`,
+`TryCache` removes the entry's NAME when `CreateLevel` returned a file and an error, arms the tee
+with whatever `CreateLevel` returned — `nil` when `os.Create` failed — and reports a plain miss;
+no result of `os.Remove` is looked at.  (With `close_removes_uncommitted`: the error of
+`cache.Close()` only decides about the removal.) -/
+theorem writer_errors_handling :
+    teeBody = ["if d.cache != nil { n, err := d.cache.Write(p); if err != nil { return n, err } }",
+      "n, err := d.outfile.Write(p)", "return n, err"] ∧
+    missBlock = ["f, err := cache.CreateLevel(dir, h, rsum, dsum, flate.BestSpeed)",
+      "if err != nil && f != nil { os.Remove(f.Name()) }", "d.cache = f", "return false, nil"] := by
+  decide
+
 variable (V : FWorld Cmd Input)
 
 /-- the hypotheses under faults: those of `transparent`, and the chunks of the body are its output -/
